@@ -52,13 +52,14 @@ SaltChainLastCommit == WR!SaltChainLastCommit(D)
 LsSize == IF cur.ls.res = "ok" /\ cur.ls.commit > 0 THEN cur.ls.commit ELSE Len(cur.base)
 LsPage(p) == IF p \in Pgs(cur.ls) THEN Ent(cur.ls, p)[3] ELSE IF p <= Len(cur.base) THEN cur.base[p] ELSE 0
 
+\* WellFormed ranges over page numbers between commit sizes: only evaluated when they are small
 Small == \A i \in 1..NF : D.frames[i].commit < 1000 /\ D.frames[i].pg < 1000
 WF == Small /\ WR!WellFormed(D) /\ ~WR!Hazard(D)
 -----------------------------------------------------------------------------
 \* Hazard signatures of known findings (WalReader.tla, known_findings.json): the verdict is split so that a listed
 \* finding is reported as such and everything else stays a violation.
 H_PgnoZero == WR!H_PgnoZero(D)
-H_CommitWithoutPages == ~H_PgnoZero /\ Small /\ WR!H_CommitWithoutPages(D)
+H_CommitWithoutPages == ~H_PgnoZero /\ WR!H_CommitWithoutPages(D)
 
 \* litestream = SQLite: the replica is byte-for-byte the database SQLite recovers (size and every page)
 EqualsSqlite_ ==
@@ -97,11 +98,10 @@ ChunksCompose_ ==
 T == WR!PageMapT(D)
 LsRes == IF cur.ls.res = "eof" THEN "EOF" ELSE cur.ls.res
 TranscriptionMatches_ ==
-  Small =>
     /\ LsRes = T.res
     /\ MapOf(cur.ls) = T.m /\ cur.ls.commit = T.commit /\ cur.ls.end = T.end
 ModelMatchesSqlite_ ==
-  (cur.sq.res = "ok" /\ Small) =>
+  cur.sq.res = "ok" =>
      LET r == WR!Recovered(D)
          size == IF r.commit > 0 THEN r.commit ELSE Len(cur.base)
      IN /\ size = Len(cur.sq.db)
@@ -110,9 +110,9 @@ ModelMatchesSqlite_ ==
 FrameSize == cur.ps + 24
 CeilDiv(a, b) == (a + b - 1) \div b
 GrowTranscriptionMatches_ ==
-  Small => \A k \in DOMAIN cur.grow : WR!Final(GrowAcc(cur.grow[k])) = WR!Final(WR!Grow(D, cur.grow[k].j))
+  \A k \in DOMAIN cur.grow : WR!Final(GrowAcc(cur.grow[k])) = WR!Final(WR!Grow(D, cur.grow[k].j))
 ChunkTranscriptionMatches_ ==
-  Small => \A c \in DOMAIN cur.chunks :
+  \A c \in DOMAIN cur.chunks :
      WR!Final(ChunkAcc(cur.chunks[c].parts, 1, WR!Shipped0)) = WR!Final(WR!Chain(D, 0, CeilDiv(cur.chunks[c].l, FrameSize), WR!Shipped0))
 -----------------------------------------------------------------------------
 V(name, ok) == ok \/ PrintT(<<"VERDICT", name, l, cur.t, cur.i>>)
